@@ -81,12 +81,28 @@ func runC05(c *Ctx) {
 		depth = 4
 	}
 	c.Exhaustive = true
-	c.Rule = fmt.Sprintf("all histories of depth <= %d over 22 grouping-policy calls (single, batch, Ex, update, batch update, filtered removal, ClearPolicy, LoadPolicy, SavePolicy) on a 3-name universe, for the plain manager (also one installed with SetRoleManager on the empty policy, with Enforce probes), the domain manager (2 domains) and two role definitions (g, g2), with an auto-saving adapter; after every call HasLink over the whole universe, GetRoles, GetUsers and the listed grouping rules are compared with the Lean model and with reachability through the listed rules (spec); all histories of the same depth over 8 batch calls on a conditional role definition (g = _, _, (_, _); implementation only: live vs rebuilt from the listed rules); plus seeded random histories incl. over-long rules; non-trivial = some call changed the graph and some call was refused; distinct = whole history", depth)
+	c.Rule = fmt.Sprintf("all histories of depth <= %d over 22 grouping-policy calls (single, batch, Ex, update, batch update, filtered removal, ClearPolicy, LoadPolicy, SavePolicy) on a 3-name universe, each history ending with the listing handed straight back to the batch removal, for the plain manager (also one installed with SetRoleManager on the empty policy, with Enforce probes), the domain manager (2 domains) and two role definitions (g, g2), with an auto-saving adapter; after every call HasLink over the whole universe, GetRoles, GetUsers and the listed grouping rules are compared with the Lean model and with reachability through the listed rules (spec); all histories of the same depth over 8 batch calls on a conditional role definition (g = _, _, (_, _); implementation only: live vs rebuilt from the listed rules); plus seeded random histories incl. over-long rules; non-trivial = some call changed the graph and some call was refused; distinct = whole history", depth)
 	names := []string{"a", "b", "c"}
 	// plain manager
 	L := [][]string{{"a", "b"}, {"b", "c"}, {"c", "a"}, {"a", "c"}}
 	cfg := &HistCfg{Name: "plain", MS: rbacSpec(false, false), Opts: CaseOpts{Adapter: true}, Depth: depth,
 		Alphabet: groupingAlphabet("g", L, []string{"b", "a"}), Probes: linkProbes("g", names, nil)}
+	// every history ends with the grouping listing handed straight back to the batch removal
+	// (RemoveGroupingPolicies(GetGroupingPolicy())): no rule and no link may be left
+	handBack := func(gt string, probes []EOp) func(c *Ctx, s *Sess, hist []EOp) {
+		return func(c *Ctx, s *Sess, hist []EOp) {
+			now := cloneRules(s.E.GetModel()["g"][gt].Policy)
+			if len(now) < 2 {
+				return
+			}
+			s.Do(c, EOp{Kind: "rms", Sec: "g", PType: gt, Rules: now, Listed: true})
+			for _, p := range probes {
+				s.Do(c, p)
+			}
+			c.Count("listing_handed_back_removals", 1)
+		}
+	}
+	cfg.AfterCase = handBack("g", cfg.Probes)
 	enumerate(c, cfg)
 	// a role manager installed with SetRoleManager on the empty policy: the graph the listings read and the graph
 	// Enforce reads must stay one graph through every grouping call
@@ -105,6 +121,7 @@ func runC05(c *Ctx) {
 	if !c.Thorough() {
 		cfgD.Depth = 2
 	}
+	cfgD.AfterCase = handBack("g", cfgD.Probes)
 	enumerate(c, cfgD)
 	// two role definitions: links of g must not leak into g2 and vice versa
 	// the same links in both definitions, so that an operation reaching the wrong manager is visible
